@@ -23,5 +23,9 @@ MCConfigsGen2 == {Mk(0, "none", ThAll), Mk(26, "none", ThFrag)}
 \* the four configurations used for the system-call level generation (crash / fault scopes)
 MCConfigsFs == {Mk(mf, "none", th) : mf \in {0, 60}, th \in {ThAll, ThFrag}}
 
+\* deeper generation for the crash / power scopes: an older, mostly-live file below an eligible one
+MCConfigsDeep == {Mk(60, "none", ThFrag), Mk(26, "none", ThDead)}
+MCConfigsDeepSync == {Mk(60, "always", ThFrag), Mk(26, "always", ThDead)}
+
 OpsBound == nops <= MaxOps
 ==============================================================================
